@@ -15,6 +15,7 @@
    types, lifted / lift-unused-param, sem<k> = number of argument tuples compared semantically. *)
 From Coq Require Import List ZArith NArith String Bool.
 From SCC Require Import Base.Sexp Lang.SynUtil Lang.CoreSyn Lang.AxSyn Sem.AxSem Sem.AxCheck Sem.FsCheck Model.Shrink Model.RunBase.
+From SCC Require Sem.CoreSem.
 Import ListNotations.
 Open Scope list_scope.
 Open Scope string_scope.
@@ -126,17 +127,31 @@ Definition critical_pair_order_ok (p : fsprog) (r : prog) : option N :=
   find (fun x => existsb (N.eqb x) bad) created.
 
 (* ---------- (c) semantics ---------- *)
-Definition fuel_ax : nat := N.to_nat 300000.
+(* N.to_nat recurses as deep as the number; N.iter builds the same numeral with logarithmic depth *)
+Definition mk_fuel (n : N) : nat := N.iter n S O.
+Definition fuel_ax : nat := mk_fuel 300000.
 Definition render_out (ps : prints) : string :=
   fold_right (fun (pz : bool * Z) acc => z_to_string (snd pz) ++ (if fst pz then nl else "") ++ acc) "" ps.
 Definition get_tuple (x : sexp) : option (list Z) := getL getZ x.
 
-(* HOOK CoreSem: [core_obs p args] = the observation of the Core machine on the focused input, or
-   None while Sem/CoreSem.v (branch c02) is not merged / when it runs out of fuel.  With the
-   machine merged this is  `let o := run_fs fuel_core p args in if out-of-fuel then None else Some o`. *)
-Definition core_obs (p : fsprog) (args : list Z) : option obs := None.
+(* The Core machine (Sem/CoreSem.v, written for C02) on the focused input.  Its fuel is one unit per
+   machine transition (several per statement), so it gets more than the AxCut machine.  None when
+   it runs out of fuel (the tuple is then not compared). *)
+Definition fuel_core : nat := mk_fuel 2000000.
+Definition core_obs (p : fsprog) (args : list Z) : option obs :=
+  let o := CoreSem.run_fs fuel_core p args in
+  match snd o with OOutOfFuel => None | _ => Some o end.
 
 Definition terminated (o : obs) : bool := match snd o with OOutOfFuel => false | _ => true end.
+
+(* equal observations; two stuck runs count as equal whatever the reason (the machines name their
+   stuck states differently; a well-typed program never gets stuck) *)
+Definition obs_sim (a b : obs) : bool :=
+  prints_eqb (fst a) (fst b) &&
+  match snd a, snd b with
+  | OStuck _, OStuck _ => true
+  | x, y => outcome_eqb x y
+  end.
 
 (* number of tuples compared with the Core machine, or the first mismatch *)
 Fixpoint sem_check (p : fsprog) (r : prog) (tuples : list (list Z)) (n : nat) : string + nat :=
@@ -148,7 +163,7 @@ Fixpoint sem_check (p : fsprog) (r : prog) (tuples : list (list Z)) (n : nat) : 
       | Some oc =>
           let oa := run_named fuel_ax r a in
           if negb (terminated oa) then sem_check p r rest n
-          else if obs_eqb oc oa then sem_check p r rest (S n)
+          else if obs_sim oc oa then sem_check p r rest (S n)
           else inl ("args=" ++ show (sL sZ a) ++ " core=" ++ show (s_obs oc) ++ " axcut=" ++ show (s_obs oa))
       end
   end.
